@@ -103,6 +103,26 @@ def catalogue(mm: MM, lsp):
                     bad("envelope-params", site, "%s.params is annotated %s (default %r), metamodel params are %s" % (req_name, str(got)[:80], f["params"].default, _tn(m.get("params"))))
             else:
                 bad("envelope-params", site, "%s has no params attribute" % req_name)
+        # JSON-RPC envelope fields of the message classes
+        for cls_name, role2 in ((req_name, role), (resp_name, "response")):
+            cobj = getattr(lsp, cls_name, None) if cls_name else None
+            if cobj is None or not attrs.has(cobj):
+                continue
+            f = {a.name: a for a in attrs.fields(cobj)}
+            stats["facets"] += 2
+            if "jsonrpc" not in f or f["jsonrpc"].default != "2.0":
+                bad("envelope-jsonrpc", site, "%s.jsonrpc does not default to '2.0'" % cls_name)
+            if role2 == "notification":
+                if "id" in f:
+                    bad("envelope-id", site, "notification class %s has an id attribute" % cls_name)
+            else:
+                want_id = typing.Union[int, str] if role2 == "request" else typing.Optional[typing.Union[int, str]]
+                if "id" not in f or not same_type(resolve(f["id"].type, lsp), want_id) or f["id"].default is not attrs.NOTHING:
+                    bad("envelope-id", site, "%s.id is %s (default %r), expected required %s" % (
+                        cls_name, f.get("id") and str(f["id"].type)[:60], f.get("id") and f["id"].default, want_id))
+            extra_fields = set(f) - {"id", "params", "method", "jsonrpc", "result"}
+            if extra_fields:
+                bad("envelope-extra", site, "%s has attributes %s that are no JSON-RPC envelope fields" % (cls_name, sorted(extra_fields)))
         if resp_name is not None:
             resp_cls = getattr(lsp, resp_name, None)
             if resp_cls is not None and attrs.has(resp_cls):
